@@ -50,6 +50,13 @@ func VerifCompileRouting(confText string, groups []string, optimizers []routing.
 	if err != nil {
 		return nil, fmt.Errorf("parse: %w", err)
 	}
+	return VerifCompileRoutingSections(sections, groups, optimizers)
+}
+
+// VerifCompileRoutingSections is VerifCompileRouting for a document already parsed by config_parser.Parse
+// (so that a harness can parse once and hand the raw AST to its own reference first). NOTE: config.New
+// patches the rules inside sections in place (must_ prefixes); read the AST before calling this.
+func VerifCompileRoutingSections(sections []*config_parser.Section, groups []string, optimizers []routing.RulesOptimizer) (*VerifRouting, error) {
 	conf, err := config.New(sections)
 	if err != nil {
 		return nil, fmt.Errorf("config.New: %w", err)
